@@ -250,7 +250,17 @@ func runC08(e *Engine, g G, o RunOpt) RunInfo {
 				}
 			})
 		}
-		e.WaitUntilFor("senders", 10*time.Minute, func() bool { return tasksDone == sc.Tasks })
+		// the harness' patience, not a bound of the property: with a small window and a slow link every
+		// window-full of a large stanza costs a round trip
+		patience := 10 * time.Minute
+		if sc.BackPressure > 0 {
+			total := 0
+			for _, op := range sc.Ops {
+				total += op.Size + 300
+			}
+			patience += time.Duration(total/sc.BackPressure+1) * (2*time.Duration(sc.LatencyNs) + time.Millisecond)
+		}
+		e.WaitUntilFor("senders", patience, func() bool { return tasksDone == sc.Tasks })
 		if sc.BackPressure > 0 && conn != nil {
 			// what the kernel accepted is only seen by the server once it reads again
 			e.WaitUntilFor("server-reads-again", time.Duration(sc.StallMs)*time.Millisecond+time.Minute, func() bool { return !conn.PauseReads })
